@@ -1,4 +1,4 @@
 From Coq Require Extraction ExtrOcamlBasic.
 From GV Require Import Sfc.SfCache.
 Extraction Blacklist String List Nat.
-Extraction "sfc.ml" run empty tag tag_is_zero Nat.pred.
+Extraction "sfc.ml" run empty tag tag_is_zero crun cspec Nat.pred.
